@@ -306,6 +306,20 @@ func c14Isolation() []string {
 		}
 	}
 	delete(env.Packages, "zzisolation")
+	// the address of a temporary is the address of a copy: a store through &f() (f ending in a try whose body failed hands
+	// out the environment package's own nil) or through &(f()) reaches nothing another run can see
+	{
+		e1, e2 := env.NewEnv(), env.NewEnv()
+		for _, src := range []string{"f = func() { try { zzz } catch { } }; p = &f(); *p = 5", "f = func() { try { zzz } catch { } }; p = &(f()); *p = 6",
+			"g = func() { }; p = &g(); *p = 7", "p = &nil; *p = 8", "p = &(nil ?? nil); *p = 9", "func h() { return nosuch ?? nil }; p = &h(); *p = 10"} {
+			run(e1, src)
+			for _, probe := range []string{"try { zzz } catch { }", "func k() { }; k()", "nil", "[nil][0]", "{}.nothing"} {
+				if v, err := run(e2, probe); err != nil || v != nil {
+					problems = append(problems, fmt.Sprintf("after %q ran in one environment, %q yields %v %v in another", src, probe, v, err))
+				}
+			}
+		}
+	}
 	if now := fmt.Sprint(env.NilValue.Interface()); now != nilBefore {
 		problems = append(problems, "a script changed env.NilValue for the whole process: it now holds "+now)
 		env.NilValue.Set(reflect.Zero(env.NilValue.Type()))
